@@ -4,6 +4,7 @@
 //!   sim replay <file>            exit 1 + "REPRODUCED classes=..." if the recorded violation recurs
 //!   sim show   --prop C01 --seed n
 
+mod alias;
 mod case;
 mod conc;
 mod db;
